@@ -59,6 +59,9 @@ class RegexReader:
         return depths[1:]
 
     def _begins_with_parenthesis_components(self):
+        if not self._components:
+            # Only happens for empty parentheses
+            raise MisformedRegexError(WRONG_PARENTHESIS_MESSAGE, self._regex)
         return self._components[0] == "("
 
     def _setup_precedence_when_not_trivial(self):
